@@ -236,11 +236,15 @@ func (s *c17State) check() string {
 	return ""
 }
 
-func c17WaitRegistered(ticker *Ticker, id uint64) bool {
+// c17WaitRegistered waits until the registration goroutine started by
+// ScheduleRetransmissions has done its work. It is called in quiescent states
+// only (every per-tick goroutine has returned or is parked at a gate), so "no
+// unparked retransmission goroutine is left" means exactly that. No field of
+// the Ticker is consulted.
+func c17WaitRegistered() bool {
 	return verifkit.Eventually(30*time.Second, func() bool {
-		ticker.handlersMutex.Lock()
-		defer ticker.handlersMutex.Unlock()
-		return ticker.nextHandlerId >= id
+		unparked, _ := c17Workers()
+		return unparked == 0
 	})
 }
 
@@ -286,7 +290,7 @@ func TestVerif_C17_Schedule(t *testing.T) {
 			s.msgs = append(s.msgs, m)
 		}
 		var plan []string
-		sent, handlerIDs := 0, uint64(1) // handler 1 is the sentinel
+		sent := 0
 		burstOnBackoff, sawCancelThenTicks := false, false
 		maxBurst := 0
 
@@ -329,11 +333,10 @@ func TestVerif_C17_Schedule(t *testing.T) {
 		register := func(m *c17Msg) {
 			ctx, cancel := context.WithCancel(context.Background())
 			m.cancel = cancel
-			handlerIDs++
 			ScheduleRetransmissions(ctx, &testutils.MockLogger{}, ticker, m.retransmit, m)
 			// registration is asynchronous in production; ticks racing with it
 			// are a boundary the property does not speak about
-			if !c17WaitRegistered(ticker, handlerIDs) {
+			if !c17WaitRegistered() {
 				fail("VERIF-INCONCLUSIVE: handler registration not observed")
 			}
 			s.mu.Lock()
